@@ -62,6 +62,7 @@ type callSpec struct {
 	Twin            string        `json:"twin,omitempty"`
 	PresetRespHeaders map[string]string `json:"preset_resp_headers,omitempty"`
 	Repeat          bool          `json:"repeat,omitempty"`
+	FirstFails bool `json:"first_fails,omitempty"`
 	TimeoutZero     bool          `json:"timeout_zero,omitempty"`
 	SubErrorable    bool          `json:"sub_errorable,omitempty"`
 	SubHandlerFails bool          `json:"sub_handler_fails,omitempty"`
